@@ -1459,8 +1459,8 @@ class Memoer(Tymee):
                 if not vid:
                     vid = self.vids.get(mid.decode()) # if not then get from .vids
                     vid = vid.encode() if vid is not None else b""
-            elif code in AckDex:
-                pass
+            elif code in AckDex:  # acks are not grams of a memo, not handled here
+                raise hioing.MemoerError(f"Unsupported ack {code=}")
             else:
                 raise hioing.MemoerError(f"Invalid {code=}")
 
@@ -1497,8 +1497,8 @@ class Memoer(Tymee):
                 if not vid:
                     vid = self.vids.get(mid.decode()) # if not then get from .vids
                     vid = vid.encode() if vid is not None else b""
-            elif code in AckDex:
-                pass
+            elif code in AckDex:  # acks are not grams of a memo, not handled here
+                raise hioing.MemoerError(f"Unsupported ack {code=}")
             else:
                 raise hioing.MemoerError(f"Invalid {code=}")
 
@@ -1592,7 +1592,9 @@ class Memoer(Tymee):
 
         try:
             mid, vid, gn, gc = self.pick(gram)  # parse and strip off head leaving body
-        except hioing.MemoerError as ex: # invalid gram so drop
+        except (hioing.MemoerError, KeyError, ValueError) as ex: # invalid gram so drop
+            # KeyError unknown code or non Base64 digit, ValueError includes
+            # UnicodeDecodeError and binascii.Error from malformed header parts
             # may be bad signature when signed or unrecognized header format
             logger.error("Invalid Memoer gram from %s.\n %s.", src, ex)
             return True  # did receive data so can try again now
